@@ -70,7 +70,9 @@ Inductive action :=
 | AReadInt (r : ikind) (d : nty)            (* d(dec.Read<r>()) *)
 | AReadFloat (bits32 : bool) (d : nty)      (* d(dec.ReadFloat32/64()); an integer d is the truncating conversion *)
 | AReadBigInt (d : nty)                     (* dec.readBigInt(t), possibly wrapped (Rat.SetInt) *)
-| AReadBigFloat (d : nty)                   (* dec.readBigFloat(t), possibly followed by .Int(nil) *)
+| AReadBigFloat (d : nty)                   (* dec.readBigFloat(t) *)
+| AReadBigFloatInt (maxbits : N)            (* bf := dec.readBigFloat(t); a CastError when bf.MantExp(nil) > maxbits (the constant
+                                               maxBigIntBits, read from the source); else *p, _ = bf.Int(nil) *)
 | AParseChar (p : pfn) (bits : Z) (d : nty) (* d(dec.stringToX(dec.readUnsafeString(1), bits)) *)
 | AParseStr (p : pfn) (bits : Z) (d : nty)  (* the same on ReadUnsafeString() / ReadString() by mode *)
 | AInf (d : nty)                            (* readInf / sign byte *)
@@ -121,4 +123,6 @@ Inductive parser :=
 | PsFloat (bits : N)                                      (* strconv.ParseFloat(s, bits), result converted to that width *)
 | PsComplex (bits : N)                                    (* complexconv.ParseComplex(s, bits) *)
 | PsBig (ty : bstr) (base10 : bool)                       (* new(big.<ty>).SetString(s[, 10]); !ok -> decodeStringError, nil *)
+| PsBigGuarded (ty : bstr) (maxexp : N)                   (* the same behind !exponentTooLarge(s): that helper recognised verbatim, with
+                                                             the constant maxTextExponent read from the source *)
 | PsUnknown (src : bstr).
